@@ -42,7 +42,8 @@ def run(repo, rep):
 
     # ---------------------------------------------------------------- C10.a closed use
     n = 0
-    reads = attr_reads(repo, ATTR)
+    reads = list(attr_reads(repo, ATTR))
+    seen_alias = set()
     for f, node in reads:
         par = enclosing_map(f.node)
         p = par.get(id(node))
@@ -76,6 +77,15 @@ def run(repo, rep):
             use = 'pass-along'
         elif isinstance(p, ast.Assign) and f.name == '__init__':
             use = 'store'
+        elif isinstance(p, ast.Assign) and len(p.targets) == 1 and isinstance(p.targets[0], ast.Name) and p.value is node:
+            # a local name for the setting: every use of that name is a use of the setting
+            use = 'local alias'
+            al = p.targets[0].id
+            if (f.key, al) not in seen_alias:
+                seen_alias.add((f.key, al))
+                for x in ast.walk(f.node):
+                    if isinstance(x, ast.Name) and x.id == al and isinstance(x.ctx, ast.Load):
+                        reads.append((f, x))
         n += 1
         rep.check(use is not None, 'C10.a', '%s:use:%s' % (f.qualname, use or src(p)[:50]), '%s:%d' % (f.module.relpath, node.lineno),
                   'allowed use of the setting: %s' % use,
@@ -158,7 +168,17 @@ def run(repo, rep):
                                                                                          want_count, ' followed by the user comment' if tc is not NONE else ''),
                               nontrivial=True)
         # truncated iteration of the same container
-        takes = [(c, value, N, defs) for c in ast.walk(f.node) if isinstance(c, ast.Call) and call_name(c) == 'take']
+        n_alias = {a_.targets[0].id for a_ in ast.walk(f.node) if isinstance(a_, ast.Assign) and len(a_.targets) == 1
+                   and isinstance(a_.targets[0], ast.Name) and src(a_.value) == N}
+
+        def _as_take(c_):
+            # take(N, it)  or  islice(it, N): normalised to (N expr, iterable expr)
+            if call_name(c_) == 'take' and len(c_.args) == 2:
+                return c_.args[0], c_.args[1]
+            if call_name(c_) == 'islice' and len(c_.args) == 2:
+                return c_.args[1], c_.args[0]
+            return None
+        takes = [(c, value, N, defs) for c in ast.walk(f.node) if isinstance(c, ast.Call) and call_name(c) in ('take', 'islice')]
         # ... also when the elements are rendered by a private helper the printer hands its value and context to
         for c in ast.walk(f.node):
             if isinstance(c, ast.Call) and isinstance(c.func, ast.Name) and not takes:
@@ -179,10 +199,11 @@ def run(repo, rep):
         okt = False
         detail = 'no take(...) call'
         for t, value_, N_, defs_ in takes:
-            if len(t.args) == 2 and src(t.args[0]) == N_:
-                it = t.args[1]
+            nt_ = _as_take(t)
+            if nt_ is not None and (src(nt_[0]) == N_ or (N_ == N and src(nt_[0]) in n_alias)):
+                it = nt_[1]
                 okt = _iterates(it, value_, defs_)
-                detail = 'take(%s, %s)' % (src(t.args[0]), src(it))
+                detail = 'take(%s, %s)' % (src(nt_[0]), src(it))
             else:
                 detail = src(t)
         rep.check(okt, 'C10.b', '%s:first-N-of-same-container' % f.qualname, f.where,
@@ -296,7 +317,7 @@ def run(repo, rep):
                     rep.fail('C10.e', '%s:untruncated-loop:%s' % (f.qualname, src(it)[:40]), '%s:%d' % (f.module.relpath, it.lineno),
                              '%s iterates %s without take(max_seq_len, ...): every element is printed regardless of the limit'
                              % (f.name, src(it)))
-                elif isinstance(it, ast.Call) and call_name(it) == 'take':
+                elif isinstance(it, ast.Call) and call_name(it) in ('take', 'islice'):
                     n += 1
                     rep.ok('C10.e', '%s:truncated-loop:%s' % (f.qualname, src(it)[:40]), '%s:%d' % (f.module.relpath, it.lineno),
                            'loop over the container goes through take')
